@@ -1638,6 +1638,31 @@ class UnitBuilder:
                     j += 1
                 end = j
             return body[li:end + 1]
+        m = re.match(r"^stmts let (\w+)(?:#(\d+))? to_tail$", anchor)
+        if m:
+            # from `let NAME` through the last statement of the enclosing block (everything in front of the block's tail expression):
+            # statements added or split in between do not move the end of the fragment
+            li, _, semi = find_let(body, m.group(1), int(m.group(2) or 1))
+            d = 0
+            j = semi + 1
+            last = semi
+            while j < len(body):
+                t = body[j]
+                if t.kind == "punct":
+                    if t.text in OPEN:
+                        d += 1
+                    elif t.text in CLOSE:
+                        if d == 0:
+                            break
+                        d -= 1
+                        if d == 0 and t.text == "}" and j + 1 < len(body) and not is_p(body[j + 1], ";") and not is_p(body[j + 1], ".") \
+                                and not is_p(body[j + 1], "?") and not (body[j + 1].kind == "ident" and body[j + 1].text == "else") \
+                                and not (body[j + 1].kind == "punct" and body[j + 1].text in CLOSE):
+                            last = j          # a block statement (`if .. { }`, `for .. { }`) ends without a semicolon
+                    elif t.text == ";" and d == 0:
+                        last = j
+                j += 1
+            return body[li:last + 1]
         m = re.match(r"^arm_block (\d+|~\S+)$", anchor)
         if m:
             # the block of a match arm of the function whose body is a block (`=> {`), braces included: the K-th such arm, or
